@@ -16,7 +16,7 @@ from symx.core import b_and, b_not, b_or, boolexpr, fresh_float, fresh_int, s_eq
 PID = "C11"
 F = facade.FACADE
 NAN = float("nan")
-CLASS_SETS = {"sorted": [10.0, 20.0, 30.0], "unsorted": [20.0, 10.0, 30.0]}
+CLASS_SETS = {"sorted": [10.0, 20.0, 30.0], "unsorted": [20.0, 10.0, 30.0], "cyclic": [20.0, 30.0, 10.0]}
 
 
 def _labels(c, n, classes, name="lab"):
@@ -386,6 +386,8 @@ def _cfg_pwc(tier):
                         if cost and K > 2 and tier == "quick":
                             continue
                         out.append(dict(n=n, nq=nq, K=K, cls_order=order, weights=weights, prior=prior, cost=cost, n_neighbors=None))
+    # a class order whose sorting permutation is not its own inverse (3-cycle), with a symbolic cost matrix
+    out.append(dict(n=2, nq=1, K=3, cls_order="cyclic", weights=False, prior=None, cost="sym", n_neighbors=None))
     out.append(dict(n=3, nq=1, K=2, cls_order="sorted", weights=False, prior=None, cost=None, n_neighbors=1))
     out.append(dict(n=3, nq=1, K=2, cls_order="unsorted", weights=True, prior="scalar", cost=None, n_neighbors=2))
     return out
@@ -393,6 +395,7 @@ def _cfg_pwc(tier):
 
 def _cfg_sk(tier):
     out = []
+    out.append(dict(n=2, nq=1, K=3, cls_order="cyclic", cost="sym", fitfn="fit"))
     for (n, nq, K) in ([(2, 1, 2), (2, 1, 3)] if tier == "quick" else [(2, 1, 2), (2, 1, 3), (3, 2, 3), (3, 1, 2)]):
         for order in ("sorted", "unsorted"):
             for cost in (None, "sym"):
